@@ -48,6 +48,7 @@ type Violation struct {
 	Reproduced bool             `json:"reproduced_in_engine"`
 	Native     string           `json:"native_replay,omitempty"`
 	Facts      map[string]string `json:"facts,omitempty"`
+	Solver     string            `json:"solver,omitempty"` // which solver produced the model
 }
 
 type Replay struct {
@@ -414,7 +415,7 @@ func (pm *pathMgr) recordViolation(kind, label string, vars map[string]int64) {
 		facts[k] = v
 	}
 	w.violations = append(w.violations, &Violation{Harness: w.harness, Label: label, Kind: kind, Vars: vars, SVars: pm.lastSVars,
-		Choices: append([]int64{}, pm.choices...), Oracle: append([]int64{}, pm.oracle...), Trace: append([]int64{}, pm.trace...), Facts: facts})
+		Choices: append([]int64{}, pm.choices...), Oracle: append([]int64{}, pm.oracle...), Trace: append([]int64{}, pm.trace...), Facts: facts, Solver: pm.sol.lastBy})
 }
 
 // assert is an explicit obligation of the harness.
